@@ -18,6 +18,14 @@ def toHexPad (n : Nat) (width : Nat) : String :=
     | fuel + 1 => go fuel (n / 16) (hexDigitChar (n % 16) :: acc)
   String.ofList (go width n [])
 
+def fnv64 (s : String) : UInt64 :=
+  s.toUTF8.foldl (fun h b => (h ^^^ b.toUInt64) * 1099511628211) 14695981039346656037
+
+def comDigest (c : List (String × Int)) : String :=
+  let sorted := sortBy (fun a b => a.1 < b.1) c
+  let txt := String.join (sorted.map (fun e => toString e.2 ++ ","))
+  toHexPad (fnv64 txt).toNat 16 |>.toList |>.dropWhile (· == '0') |> String.ofList
+
 structure LastTx where
   t : TxIn
   code : Nat
@@ -35,6 +43,10 @@ structure DState where
   oracle : List (OQ × Int) := []
   lastTx : Option LastTx := none
   begin : BeginInfo := { height := 0, byz := [], signed := [] }
+  lastK : Option Nat := none
+  expectCom : Option String := none
+  expectVer : Option String := none
+  comTable : List (String × Int) := []
   nCommits : Nat := 0
   nOps : Nat := 0
   nModelled : Nat := 0
@@ -78,7 +90,14 @@ def amountOf (key : String) (v : Option String) : Int :=
     | _ => 0
 
 /-- Monitors evaluated on the node's own observations after every DeliverTx (C03, C04, C05). -/
-def txMonitors (P : Params) (lt : LastTx) (chs : List Change) : List String := Id.run do
+def changeOf (chs : List Change) (key : String) : Option Change := chs.find? (fun c => c.key == key)
+
+def deltaOf (chs : List Change) (key : String) : Int :=
+  match changeOf chs key with
+  | some c => amountOf key c.new - amountOf key c.old
+  | none => 0
+
+def txMonitors (P : Params) (lt : LastTx) (chs : List Change) (dOld : Dump) (block : Nat) (comTable : List (String × Int)) : List String := Id.run do
   let t := lt.t
   let mut out : List String := []
   let senderHex := toHexPad t.sender 40
@@ -115,6 +134,65 @@ def txMonitors (P : Params) (lt : LastTx) (chs : List Change) : List String := I
       if amountOf c.key c.new < amountOf c.key c.old && a != senderHex then
         out := s!"VIOL C05 foreign-waitlist-reduced {c.key} type={t.typ} sender={senderHex}" :: out
     | _ => pure ()
+  -- C27: the commission in price-table terms
+  let priceTag := kvGet lt.kvs "tx.commission_price"
+  if priceTag != "" then
+    let st : State := { commission := comTable }
+    let want := txPrice st t
+    if intD priceTag != want then out := s!"VIOL C27 commission-price tag={priceTag} expected={want} type={t.typ}" :: out
+  if lt.code == 0 then
+    let inBase := intD (kvGet lt.kvs "tx.commission_in_base_coin")
+    let burned := intD (kvGet lt.kvs "tx.burned_for_symbol")
+    let dr := match changeOf chs "app rewards" with
+      | some c => intD (c.new.getD "0") - intD (c.old.getD "0")
+      | none => 0
+    if dr != inBase - burned then out := s!"VIOL C27 fee-pool-delta got={dr} expected={inBase - burned} type={t.typ}" :: out
+    if burned != 0 && deltaOf chs s!"b {toHexPad 0 40} 0" != burned then
+      out := s!"VIOL C27 ticker-fee-not-burned burned={burned} zero-address-delta={deltaOf chs s!"b {toHexPad 0 40} 0"}" :: out
+    -- C15: slippage limits and tags
+    let com := intD (kvGet lt.kvs "tx.commission_amount")
+    let ret := intD (kvGet lt.kvs "tx.return")
+    let coins := (t.str "d.Coins").splitOn ","
+    let (isConv, cSell, cBuy) :=
+      if t.typ == 2 || t.typ == 3 || t.typ == 4 then (true, t.nat "d.CoinToSell", t.nat "d.CoinToBuy")
+      else if t.typ == 23 || t.typ == 24 || t.typ == 25 then (true, natD (coins.headD "0"), natD (coins.getLastD "0"))
+      else (false, 0, 0)
+    if isConv && cSell != cBuy then
+      let dSell := deltaOf chs s!"b {senderHex} {cSell}"
+      let dBuy := deltaOf chs s!"b {senderHex} {cBuy}"
+      let comIn (c : Nat) : Int := if t.comCoin == c then com else 0
+      let noSelf := kvGet lt.kvs "x.selforders" == "0" || kvGet lt.kvs "x.selforders" == ""
+      -- the sender may own orders that its own trade fills: those credits come on top (only ≥ can be checked then)
+      let agrees (got want : Int) : Bool := if noSelf then got == want else got ≥ want
+      if t.typ == 2 || t.typ == 23 then
+        if ret < t.int "d.MinimumValueToBuy" then out := s!"VIOL C15 bought-less-than-minimum return={ret} min={t.int "d.MinimumValueToBuy"}" :: out
+        if !(agrees dBuy (ret - comIn cBuy)) then out := s!"VIOL C15 buy-credit-differs-from-tag delta={dBuy} return={ret} type={t.typ}" :: out
+        if !(agrees dSell (-(t.int "d.ValueToSell") - comIn cSell)) then out := s!"VIOL C15 sell-debit-differs delta={dSell} value={t.int "d.ValueToSell"} com={comIn cSell} type={t.typ}" :: out
+      else if t.typ == 4 || t.typ == 24 then
+        if ret > t.int "d.MaximumValueToSell" then out := s!"VIOL C15 sold-more-than-maximum return={ret} max={t.int "d.MaximumValueToSell"}" :: out
+        if !(agrees dSell (-ret - comIn cSell)) then out := s!"VIOL C15 sell-debit-differs-from-tag delta={dSell} return={ret} type={t.typ}" :: out
+        if !(agrees dBuy (t.int "d.ValueToBuy" - comIn cBuy)) then out := s!"VIOL C15 buy-credit-differs delta={dBuy} value={t.int "d.ValueToBuy"} type={t.typ}" :: out
+      else
+        if ret < t.int "d.MinimumValueToBuy" then out := s!"VIOL C15 bought-less-than-minimum return={ret} min={t.int "d.MinimumValueToBuy"}" :: out
+        if !(agrees dBuy ret) then out := s!"VIOL C15 buy-credit-differs-from-tag delta={dBuy} return={ret} type={t.typ}" :: out
+        let oldBal := intD ((dOld.get? s!"b {senderHex} {cSell}").getD "0")
+        if !(agrees (oldBal + dSell) 0) then out := s!"VIOL C15 sell-all-left-a-balance old={oldBal} delta={dSell}" :: out
+        let sold := intD (kvGet lt.kvs "tx.sell_amount")
+        if sold != oldBal then out := s!"VIOL C15 sell-all-amount-tag sold={sold} balance={oldBal}" :: out
+    -- C22: fresh ids
+    if t.typ == 5 || t.typ == 30 || t.typ == 16 || t.typ == 31 || t.typ == 34 then
+      let oldN := natD ((dOld.get? "app ncoins").getD "0")
+      let newIds := chs.filterMap (fun c => match words c.key with
+        | ["c", id] => if c.old.isNone then some (natD id) else none
+        | _ => none)
+      if newIds != [oldN + 1] then out := s!"VIOL C22 new-coin-id ids={newIds} expected={oldN + 1} type={t.typ}" :: out
+    -- C20: votes only for current or future heights, once per candidate and height
+    if t.typ == 15 || t.typ == 32 || t.typ == 33 then
+      let hgt := t.nat "d.Height"
+      let pk := t.str "d.PubKey"
+      if hgt < block then out := s!"VIOL C20 vote-for-past-height accepted height={hgt} block={block} type={t.typ}" :: out
+      let pre := if t.typ == 15 then "h" else if t.typ == 32 then "cv" else "uv"
+      if (dOld.get? s!"{pre} {hgt} {pk}").isSome then out := s!"VIOL C20 duplicate-vote accepted height={hgt} type={t.typ}" :: out
   -- failure frame
   if lt.code != 0 then
     let payer := if t.typ == 9 && issuerHex != "" then issuerHex else senderHex
@@ -228,6 +306,7 @@ partial def loop (h : IO.FS.Stream) (out : IO.FS.Stream) (ds : DState) : IO Unit
     loop h out { ds with params := p }
   | "S" :: kind :: _ =>
     let before : Option State := if kind == "begin" || kind == "end" then some (State.ofDump ds.dump) else none
+    let dumpBefore := ds.dump
     let (d, chs) ← readDelta h ds.dump []
     let keys := chs.map (·.key)
     let mut ds := { ds with dump := d, nOps := ds.nOps + 1 }
@@ -243,9 +322,23 @@ partial def loop (h : IO.FS.Stream) (out : IO.FS.Stream) (ds : DState) : IO Unit
           if !baseDeltaOk prev st then
             out.putStrLn s!"VIOL C01 base-delta baseTotal:{baseTotal prev}->{baseTotal st} emission:{prev.emission}->{st.emission}"
         | none => pure ()
+      if kind == "commit" then
+        match ds.committed with
+        | some prev =>
+          let dOld := comDigest prev.commission
+          let dNew := comDigest st.commission
+          match ds.expectCom with
+          | some w => if dNew != w then out.putStrLn s!"VIOL C20 commission-vote-passed-not-applied expected={w} got={dNew}"
+          | none => if dNew != dOld then out.putStrLn s!"VIOL C20 commission-changed-without-two-thirds {dOld}->{dNew}"
+          match ds.expectVer with
+          | some w =>
+            let want := (if prev.versions == "" then "" else prev.versions ++ ",") ++ s!"{w}@{ds.begin.height}"
+            if st.versions != want then out.putStrLn s!"VIOL C20 version-vote-passed-not-applied expected={want} got={st.versions}"
+          | none => if st.versions != prev.versions then out.putStrLn s!"VIOL C20 version-changed-without-two-thirds {prev.versions}->{st.versions}"
+        | none => pure ()
       out.putStrLn s!"OK {kind} coins={st.coins.length} base={baseTotal st} emission={st.emission} modelled={ds.nModelled} unmodelled={ds.nUnmodelled} skipped={ds.nStaleSkipped} oracle={ds.nOracle}"
       -- resync the model with the committed Go state (EndBlock is not modelled yet)
-      ds := { ds with committed := some st, nCommits := ds.nCommits + 1, model := some { st with rewardsPool := 0 }, touched := [], oracle := [], staleOther := false, pendingMerge := false }
+      ds := { ds with committed := some st, nCommits := ds.nCommits + 1, model := some { st with rewardsPool := 0 }, touched := [], oracle := [], staleOther := false, pendingMerge := false, expectCom := none, expectVer := none, comTable := st.commission }
     else if kind == "end" then
       match before with
       | some old =>
@@ -253,6 +346,12 @@ partial def loop (h : IO.FS.Stream) (out : IO.FS.Stream) (ds : DState) : IO Unit
         let cap : Int := 10000000000 * 1000000000000000000
         for v in endMonitor old new ds.begin.signed (decide (old.emission ≥ cap)) (ds.begin.height % ds.params.period == 0) do
           out.putStrLn v
+        ds := { ds with expectCom := winnerAt old ds.begin.signed ds.begin.height old.cvotes,
+                        expectVer := winnerAt old ds.begin.signed ds.begin.height old.uvotes }
+        let setChanged := (new.validators.map (·.pubkey)) != (old.validators.map (·.pubkey))
+        if setChanged || ds.begin.height % ds.params.period == 0 then
+          for v in validatorSetMonitor new do
+            out.putStrLn v
       | none => pure ()
     else if kind == "begin" then
       match before with
@@ -263,6 +362,8 @@ partial def loop (h : IO.FS.Stream) (out : IO.FS.Stream) (ds : DState) : IO Unit
           | _ => none)
         for v in beginMonitor ds.params.unbond old new ds.begin deltas do
           out.putStrLn v
+        if haltExpected old ds.begin.signed ds.begin.height then
+          out.putStrLn s!"VIOL C20 halt-vote-passed-but-node-continued height={ds.begin.height}"
       | none => pure ()
       -- BeginBlock is modelled only as "fee pool := 0"; anything it changed on the live projection puts the model out of sync
       match ds.model with
@@ -273,7 +374,7 @@ partial def loop (h : IO.FS.Stream) (out : IO.FS.Stream) (ds : DState) : IO Unit
     else if kind == "tx" then
       match ds.lastTx with
       | some lt =>
-        for v in txMonitors ds.params lt chs do
+        for v in txMonitors ds.params lt chs dumpBefore ds.block ds.comTable do
           out.putStrLn v
         ds := { ds with lastTx := none }
       | none => pure ()
@@ -304,10 +405,29 @@ partial def loop (h : IO.FS.Stream) (out : IO.FS.Stream) (ds : DState) : IO Unit
     out.putStrLn "."
     out.flush
     loop h out ds
+  | "K" :: _ =>
+    let a := kv l
+    out.putStrLn "."
+    out.flush
+    loop h out { ds with lastK := some (natD (kvGet a "code")) }
+  | "H" :: _ =>
+    -- the node halted in BeginBlock: it must be because strictly more than 2/3 of the present power voted for it
+    if l.endsWith "halted" then
+      let st := State.ofDump ds.dump
+      if !(haltExpected st ds.begin.signed ds.begin.height) then
+        out.putStrLn s!"VIOL C20 halted-without-two-thirds height={ds.begin.height}"
+    out.putStrLn "."
+    out.flush
+    loop h out ds
   | "D" :: _ =>
     let a := kv l
     let goCode := natD (kvGet a "code")
-    let mut ds := { ds with nOps := ds.nOps + 1, lastTx := some { t := TxIn.ofKV a, code := goCode, kvs := a } }
+    match ds.lastK with
+    | some k =>
+      if (k == 0) != (goCode == 0) && k != 113 && k != 114 && goCode != 999 then
+        out.putStrLn s!"VIOL C06 checktx-delivertx-disagree check={k} deliver={goCode} type={kvGet a "typ"}"
+    | none => pure ()
+    let mut ds := { ds with nOps := ds.nOps + 1, lastK := none, lastTx := some { t := TxIn.ofKV a, code := goCode, kvs := a } }
     match ds.model with
     | none => ds := { ds with nStaleSkipped := ds.nStaleSkipped + 1 }
     | some m =>
